@@ -7,7 +7,14 @@ read/write sets are per-iteration footprints.  Two distinct iterations may run c
 size, so the region is free of data races for all schedules iff no two virtual threads touch the same byte in the same barrier
 phase with at least one write, unless both accesses are inside critical / reduction-combine sections.  Code outside the
 work-shared loops is executed by every virtual thread (as by every real thread), so unsynchronised writes to shared memory
-there are reported as well.  `single` is executed by virtual thread 0."""
+there are reported as well.  `single` is executed by virtual thread 0.
+
+Second schedule model (`sched="chunks"`): a team of NVT virtual threads where the loop's own schedule kind and chunk size are
+honoured - static: one contiguous block per thread (or round-robin chunks when a chunk size is given), dynamic/guided: chunk c goes
+to thread c mod NVT, each thread taking its chunks in increasing order - which is one of the executions the OpenMP runtime may
+produce.  A thread now runs several, non-adjacent chunks one after the other, so state that an iteration leaves behind in
+thread-private variables (caches, `last value` shortcuts) reaches later iterations exactly as it would at run time; the reused
+harness decides its value identities on that execution too."""
 from .interp import MapObj, Obj, Ptr, REAL, Unsupported
 
 STATE = None       # active OmpState (module global: one interpreter run at a time per process)
@@ -16,8 +23,9 @@ REGIONS = []       # (microtask name, nvt, max trip count, accesses logged)
 
 
 class OmpState(object):
-    def __init__(self, nvt):
+    def __init__(self, nvt, sched="iter"):
         self.nvt = nvt
+        self.sched = sched
         self.vt = 0
         self.in_region = False
         self.phase = 0
@@ -40,10 +48,10 @@ def reset():
     del SILENT[:]
 
 
-def attach(it, nvt):
+def attach(it, nvt, sched="iter"):
     """enable footprint mode on an interpreter instance"""
     global STATE
-    st = OmpState(nvt)
+    st = OmpState(nvt, sched)
     STATE = st
     it.omp = st
     ex = it.extern
@@ -81,6 +89,32 @@ def attach(it, nvt):
         lb, ub = it.load(plb, ty), it.load(pub, ty)
         trips = (ub - lb) // incr + 1 if (incr > 0 and ub >= lb) or (incr < 0 and ub <= lb) else 0
         st.max_trip = max(st.max_trip, trips)
+        if st.sched == "chunks":
+            T, kind, chunk = st.nvt, a[2], a[8]
+            if kind == 33 and chunk >= 1:      # kmp_sch_static_chunked: clang's dispatch loop advances by the stride
+                first = st.vt * chunk
+                if first >= trips:
+                    it.store(plb, ty, ub + incr)
+                    it.store(pub, ty, ub)
+                else:
+                    it.store(plb, ty, lb + first * incr)
+                    it.store(pub, ty, lb + (first + chunk - 1) * incr)
+                it.store(pstride, ty, T * chunk * incr)
+                it.store(plast, "i32", 1 if trips and ((trips - 1) // chunk) % T == st.vt else 0)
+                return None
+            block = -(-trips // T) if trips else 0
+            first = st.vt * block
+            if not trips or first >= trips:
+                it.store(plb, ty, ub + incr)
+                it.store(pub, ty, ub)
+                it.store(plast, "i32", 0)
+            else:
+                last = min(first + block, trips) - 1
+                it.store(plb, ty, lb + first * incr)
+                it.store(pub, ty, lb + last * incr)
+                it.store(plast, "i32", 1 if last == trips - 1 else 0)
+            it.store(pstride, ty, incr * max(trips, 1))
+            return None
         if st.vt < trips:
             it.store(plb, ty, lb + st.vt * incr)
             it.store(pub, ty, lb + st.vt * incr)
@@ -97,11 +131,26 @@ def attach(it, nvt):
         trips = (ub - lb) // stride + 1 if (stride > 0 and ub >= lb) or (stride < 0 and ub <= lb) else 0
         st.max_trip = max(st.max_trip, trips)
         st.dyn = [lb, ub, stride, trips, False]
+        if st.sched == "chunks":
+            chunk = a[6] if len(a) > 6 and isinstance(a[6], int) and a[6] >= 1 else 1
+            st.dyn = [lb, ub, stride, trips, st.vt, chunk]
         return None
 
     def dispatch_next(it, a, width):
         ty = "i32" if width == 4 else "i64"
         plast, plb, pub, pst = a[2], a[3], a[4], a[5]
+        if st.sched == "chunks":
+            lb, ub, stride, trips, c, chunk = st.dyn
+            first = c * chunk
+            if first >= trips:
+                return 0
+            last = min(first + chunk, trips) - 1
+            st.dyn[4] = c + st.nvt
+            it.store(plb, ty, lb + first * stride)
+            it.store(pub, ty, lb + last * stride)
+            it.store(pst, ty, stride)
+            it.store(plast, "i32", 1 if last == trips - 1 else 0)
+            return 1
         lb, ub, stride, trips, served = st.dyn
         if served or st.vt >= trips:
             return 0
